@@ -302,3 +302,10 @@ def run(rep, facts, tier):
         rep.floor("scalar_mul_impls_A", counts["A"], 20)
     if "M" in counts:
         rep.floor("scalar_mul_impls_M", counts["M"], 10)
+    # arkworks' generic scalar-multiplication code (window sizes of VariableBaseMSM::msm, bit iteration of mul_bigint over Fr::into_bigint) reads the
+    # scalar field's published constants: C17's instances on Fr are premises of "arkworks computes the k-fold sum"
+    import re as _re
+    from .common import import_rules
+    nfr = import_rules(rep, c17, {k: v for k, v in facts.items() if k in ("A", "M")}, tier, "SCALAR",
+                       pred=lambda k: bool(_re.search(r"(::|<|/)fr(::| as |/)", k)))
+    rep.floor("scalar_field_constants", nfr, 40)
